@@ -26,7 +26,7 @@ struct Msg {
 	int major = 1, minor = 1;
 	std::vector<std::pair<std::string, std::string>> headers;	// names as sent, values trimmed of optional whitespace
 	std::string body;
-	bool chunked = false, close_delimited = false, has_cl = false;
+	bool chunked = false, close_delimited = false, has_cl = false, tunnel = false, interim_seen = false, indeterminate = false;
 	uint64_t content_length = 0;
 	bool keep_alive = true;	// after this message the connection may carry another one
 	size_t header_bytes = 0;	// start line + header section incl. the empty line
@@ -89,7 +89,7 @@ inline bool parse_headers(const std::string &s, size_t &pos, Msg &m, bool is_req
 		if (c == std::string::npos) { weaken(m, REJECT, "field line without a colon"); continue; }
 		std::string name = line.substr(0, c), value = trim(line.substr(c + 1));
 		if (name.empty()) { weaken(m, REJECT, "empty field name"); continue; }
-		if (name.back() == ' ' || name.back() == '\t') weaken(m, REJECT, "whitespace between field name and colon");
+		if (name.back() == ' ' || name.back() == '\t') weaken(m, is_request ? REJECT : EITHER, "whitespace between field name and colon");
 		else if (!is_token(name)) weaken(m, is_request ? REJECT : EITHER, "field name is not a token");
 		for (unsigned char ch : value) if (ch < 0x20 && ch != '\t') weaken(m, EITHER, "control character in a field value");
 		out.emplace_back(name, value);
@@ -260,6 +260,9 @@ inline Msg parse_response(const std::string &s, size_t pos0, const std::string &
 	m.header_bytes = pos - pos0;
 	connection_persistence(m);
 	bool nobody = (m.status >= 100 && m.status < 200) || m.status == 204 || m.status == 304;
+	// section 6.3 rule 2: a 2xx response to CONNECT switches the connection to a tunnel right after the header section;
+	// Content-Length and Transfer-Encoding in it MUST be ignored and what follows is not HTTP
+	if (req_method == "CONNECT" && m.status >= 200 && m.status < 300) { m.tunnel = true; m.keep_alive = false; m.consumed = pos - pos0; return m; }
 	if (m.v != REJECT && !parse_body(s, pos, m, false, nobody, eof, req_method)) { m.v = INCOMPLETE; return m; }
 	m.consumed = pos - pos0;
 	return m;
